@@ -74,8 +74,13 @@ def expected_context(src, offset, length, widths):
     col = len(pre) - (pre.rfind(b"\n") + 1)
     lines = rust_lines(src)
     if line >= len(lines):
-        return None
-    text = lines[line]
+        # the end of a file that ends with a line feed: a line of its own, shown empty (the statement asks for a
+        # location, an echoed line and a caret for every rejection; printing nothing here was a defect, repaired)
+        if offset != len(b):
+            return None
+        text = ""
+    else:
+        text = lines[line]
     width = max(length, 1)
     i = 0
     before = 0
